@@ -423,6 +423,8 @@ def call_body(*args, _vh_spec=None, **kwargs):
                 class StopWork(BaseException):      # not an Exception: like SystemExit / KeyboardInterrupt raised by the function
                     pass
                 raise StopWork("boom", spec["id"])
+            if kind == "stop":
+                raise StopIteration("boom", spec["id"])      # an exception with a special role in generators / comprehensions
             if kind == "json":
                 import json as _json
                 _json.loads("{")
